@@ -17,7 +17,9 @@ TITLE = "2-D histogram bins every point exactly once, independent of thread sche
 RULE = (
     "case i -> rng(seed, C05, i): n in {0,1,2,..,1e5} points (uniform, single bin, two bins, clumps, constants, "
     "points within one bin width outside each limit, NaN/inf entries, non-positive values on log axes, "
-    "float32/int inputs), resolution 1..512, explicit or automatic limits, linear/log axes, default count "
+    "float32/int inputs), resolution 1..512, explicit or automatic limits, linear/log axes, layer values as small integers / reals in double or single "
+    "precision / int32 / bool (incl. calls where everything is single precision), one bin crowded with more than "
+    "2**24 points, default count "
     "layer or 1-3 value layers with per-layer / call-level operation sum|mean; both osyris.histogram2d and "
     "the kernel itself; schedule cases: all points in one bin, two bins, 2x2, clumps, uniform with 2e3..2e6 "
     "(thorough 1e7) points under 1..16 threads x chunk sizes x {omp, workqueue} x affinity {16, 2, 1 cores}, "
@@ -37,7 +39,8 @@ def plan(tier):
             "required_monitors": ["bins-judged", "conservation", "grid-observed", "kernel-direct", "schedule-runs",
                                   "boundscheck-runs", "conflict-monitor-runs"],
             "required_tags": ["just-outside-limits", "log-axis", "auto-limits", "explicit-limits", "mean-layer",
-                              "nan-inf-points", "empty-input", "layer-omp", "layer-workqueue"]}
+                              "nan-inf-points", "empty-input", "layer-omp", "layer-workqueue", "float32-layer",
+                              "crowded-bin"]}
 
 
 def cases(ctx):
@@ -48,7 +51,12 @@ def cases(ctx):
     out += [{"id": f"r{i}", "i": i} for i in range(n)]
     ns = 32 if ctx.tier == "quick" else 160
     out += [{"id": f"s{i}", "i": i, "sched": True} for i in range(ns)]
+    # one bin holding more points than single precision can count (2**24), single- and double-precision coordinates
+    out += [{"id": f"big{i}", "i": i, "big": True} for i in range(2 if ctx.tier == "quick" else 4)]
     return out
+
+
+LD = np.longdouble
 
 
 def exact_bins(v, vmin, vmax, n, feps=None):
@@ -120,11 +128,20 @@ def judge(res, label, x, y, layers_vals, ops, grid, got_layers, got_counts=None,
         if op == "count":
             exp = counts.astype(float)
         else:
-            s = np.zeros((ny, nx))
-            np.add.at(s, (ky[sure], kx[sure]), np.asarray(vals, dtype=float)[sure])
+            # the stored values are the values (float32 -> float64 is exact); the sum of n doubles in any order is
+            # within n * 1.1e-16 * sum|v| of the exact sum: n <= 1e5 -> 1e-9 * sum|v| is a sound bound, and far below
+            # what accumulating in single precision gives (6e-8 per addition)
+            s = np.zeros((ny, nx), dtype=LD)
+            sabs = np.zeros((ny, nx), dtype=LD)
+            vv = np.asarray(vals).astype(LD)[sure]
+            np.add.at(s, (ky[sure], kx[sure]), vv)
+            np.add.at(sabs, (ky[sure], kx[sure]), np.abs(vv))
+            s, sabs = s.astype(float), sabs.astype(float)
             exp = s if op == "sum" else np.where(counts > 0, s / np.maximum(counts, 1), 0.0)
+            if op != "sum":
+                sabs = sabs / np.maximum(counts, 1)
         ok = ~fuzzy & ~exp_mask
-        tol = 1e-9 * np.abs(exp) + 1e-12
+        tol = 1e-9 * (np.abs(exp) if op == "count" else sabs) + 1e-12
         bad = ok & (np.abs(data - exp) > tol)
         if bad.any():
             j, i = (int(v) for v in np.argwhere(bad)[0])
@@ -145,9 +162,55 @@ def judge(res, label, x, y, layers_vals, ops, grid, got_layers, got_counts=None,
     return True
 
 
+def _crowded(case, ctx, res):
+    """A bin with more than 2**24 points: the default layer is the number of points, a 'sum' layer of ones too, and a
+    'mean' layer of a constant is that constant.  All points are strictly inside explicit limits, so the model is
+    known without locating 16 million points."""
+    osy = ctx.osyris
+    i = case["i"]
+    rng = np.random.default_rng(np.random.SeedSequence([20240205, 55, i]))
+    n = 2 ** 24 + int(rng.integers(3, 2000))
+    dt = ["float32", "float64"][i % 2]
+    x = rng.uniform(0.25, 0.75, n).astype(dt)
+    y = rng.uniform(0.25, 0.75, n).astype(dt)
+    xa = osy.Array(values=x, unit="cm", name="xx")
+    ya = osy.Array(values=y, unit="K", name="yy")
+    nb = [1, 2][(i // 2) % 2]
+    kw = dict(resolution=nb, xmin=0.0 if nb == 1 else 0.2, xmax=1.0 if nb == 1 else 1.4, ymin=0.0, ymax=1.0 if nb == 1 else 2.0,
+              plot=False)
+    label = f"histogram2d(n=2**24+{n - 2 ** 24}, {dt}, all points in one bin of a {nb}x{nb} grid)"
+    res.sample = {"call": label}
+    res.digest_src = {"big": i}
+    res.tag("crowded-bin")
+    res.nontrivial = True
+    from osyris.core.layer import Layer
+    ones = osy.Array(values=np.ones(n, dtype=dt), unit="g", name="w")
+    half = osy.Array(values=np.full(n, 0.5, dtype=dt), unit="g", name="h")
+    for what, layers, want in (("default layer", [], float(n)), ("sum of ones", [Layer(ones, operation="sum")], float(n)),
+                               ("mean of 0.5", [Layer(half, operation="mean")], 0.5)):
+        with quiet():
+            out = attempt(lambda: osy.histogram2d(xa, ya, *layers, **kw))
+        if not out.ok:
+            res.violate("histogram-raised", f"{label}: {out.describe()}", tb=out.tb)
+            return
+        res.count("bins-judged", nb * nb)
+        data = np.ma.getdata(out.value.layers[0]["data"])
+        mask = np.ma.getmaskarray(out.value.layers[0]["data"])
+        got = float(data[0, 0])
+        if mask[0, 0] or abs(got - want) > 1e-9 * want:
+            res.violate("count-wrong" if want == float(n) else "bin-content-wrong",
+                        f"{label}: {what} of the crowded bin is {got!r} (masked={bool(mask[0, 0])}), the bin holds {n} points -> {want!r}")
+            return
+        if nb > 1 and not mask.ravel()[1:].all():
+            res.violate("empty-bin-unmasked", f"{label}: {what}: an empty bin is not masked")
+            return
+
+
 def run_case(case, ctx, res):
     if case.get("sched"):
         return sched.run_hist_kernel_case(case, ctx, res)
+    if case.get("big"):
+        return _crowded(case, ctx, res)
     osy = ctx.osyris
     mod = sys.modules["osyris.plot.histogram2d"]
     from osyris.plot import utils as pu
@@ -246,8 +309,29 @@ def run_case(case, ctx, res):
     layers, layer_vals, layer_ops = [], [], []
     call_op = str(rng.choice(["sum", "mean"]))
     from osyris.core.layer import Layer
+    # value types: small integers stored as doubles, reals in double / single precision, int32, bool; "all32" = every
+    # layer of the call (and the coordinates) in single precision
+    vmode = str(rng.choice(["small-int", "real64", "real32", "mixed", "all32", "int32"])) if fi is None else \
+        ["small-int", "real64", "real32", "mixed", "all32", "int32"][(fi // 4) % 6]
+    if vmode == "all32" and dt == "float64":
+        x = x.astype("float32")
+        y = y.astype("float32")
+        dt = "float32"
+        xa = osy.Array(values=x, unit="cm", name="xx")
+        ya = osy.Array(values=y, unit="K", name="yy")
     for k in range(nl):
-        v = rng.integers(-5, 9, size=n).astype(float)
+        vm = vmode if vmode != "mixed" else str(rng.choice(["small-int", "real64", "real32", "int32", "bool"]))
+        if vm == "small-int":
+            v = rng.integers(-5, 9, size=n).astype(float)
+        elif vm == "real64":
+            v = rng.normal(size=n) * 10.0 ** float(rng.integers(-3, 6)) + float(rng.choice([0.0, 1.0, 1e3]))
+        elif vm in ("real32", "all32"):
+            v = (rng.normal(size=n) * 10.0 ** float(rng.integers(-3, 6)) + float(rng.choice([0.0, 0.1, 1e3]))).astype("float32")
+            res.tag("float32-layer")
+        elif vm == "int32":
+            v = rng.integers(-2000, 2000, size=n).astype("int32")
+        else:
+            v = rng.random(n) < 0.5
         arr = osy.Array(values=v, unit="g", name=f"w{k}")
         lop = [None, "sum", "mean"][int(rng.integers(0, 3))]
         layers.append(Layer(arr, operation=lop) if (lop or rng.random() < 0.5) else arr)
